@@ -49,7 +49,8 @@ DtorState(i) == LET c == cls[i] IN
     [] c.dt = "none" -> IF ImplDtDeleted(i) THEN "deleted" ELSE "pub"
 
 \* any user-declared constructor suppresses the implicit default constructor
-HasUserCtorDecl(c) == c.dc # "none" \/ c.cc # "none" \/ c.mc # "none"
+\* oc: some other constructor is declared (one that cannot be called without arguments)
+HasUserCtorDecl(c) == c.dc # "none" \/ c.cc # "none" \/ c.mc # "none" \/ c.oc
 
 ImplDcDeleted(i) == LET c == cls[i] IN
   \/ c.cint \/ c.ref         \* const member without initialiser / reference member
@@ -102,16 +103,19 @@ DCs == {D0} \cup ({"user", "default", "delete"} \X Acc)
 DTs == {T0} \cup ({"user", "default", "delete"} \X Acc \X BOOLEAN)
 MCs == {"none", "user", "delete"}
 
-Mk(d, c, m, t, ci, rf, v, r) ==
-  [dc |-> d[1], dcacc |-> d[2], cc |-> c[1], ccacc |-> c[2], mc |-> m,
+MkO(d, c, m, t, ci, rf, v, r, o) ==
+  [dc |-> d[1], dcacc |-> d[2], cc |-> c[1], ccacc |-> c[2], mc |-> m, oc |-> o,
    dt |-> t[1], dtacc |-> t[2], dtvirt |-> t[3], cint |-> ci, ref |-> rf, vf |-> v, rel |-> r]
+
+Mk(d, c, m, t, ci, rf, v, r) == MkO(d, c, m, t, ci, rf, v, r, FALSE)
 
 NonDefault(d, c, m, t, ci, rf, v) ==
     (IF d # D0 THEN 1 ELSE 0) + (IF c # D0 THEN 1 ELSE 0) + (IF m # "none" THEN 1 ELSE 0)
   + (IF t # T0 THEN 1 ELSE 0) + (IF ci THEN 1 ELSE 0) + (IF rf THEN 1 ELSE 0) + (IF v # "none" THEN 1 ELSE 0)
 
-Root == {Mk(d, c, m, t, ci, rf, v, <<>>) :
-           d \in DCs, c \in DCs, m \in MCs, t \in DTs, ci \in BOOLEAN, rf \in BOOLEAN, v \in {"none", "virt", "pure"}}
+Root == {MkO(d, c, m, t, ci, rf, v, <<>>, o) :
+           d \in DCs, c \in DCs, m \in MCs, t \in DTs, ci \in BOOLEAN, rf \in BOOLEAN, v \in {"none", "virt", "pure"},
+           o \in BOOLEAN}
 
 RelChoices(i) == {r \in [1..(i - 1) -> Rels] : \A j \in 1..(i - 1) : r[j] \in RelSets[i][j]}
 
@@ -147,7 +151,8 @@ Init == cls = <<>> /\ done = FALSE
 AddRoot ==
   /\ N = 0
   /\ \E c \in Root :
-       /\ NonDefault(<<c.dc, c.dcacc>>, <<c.cc, c.ccacc>>, c.mc, <<c.dt, c.dtacc, c.dtvirt>>, c.cint, c.ref, c.vf) <= RootBudget
+       /\ NonDefault(<<c.dc, c.dcacc>>, <<c.cc, c.ccacc>>, c.mc, <<c.dt, c.dtacc, c.dtvirt>>, c.cint, c.ref, c.vf)
+            + (IF c.oc THEN 1 ELSE 0) <= RootBudget
        /\ cls' = <<c>>
   /\ UNCHANGED done
 
